@@ -3,7 +3,7 @@
 """Classes for simulating (non-standard) number formats."""
 
 from dataclasses import dataclass
-from typing import Tuple, cast
+from typing import Any, Tuple, cast
 
 import torch
 from torch import Tensor
@@ -125,14 +125,20 @@ class FPFormat:
         return QuantiseBackward.apply(x)  # type: ignore
 
 
-def format_to_tuple(format: FPFormat) -> Tuple[int, int]:
-    """Convert the format into a tuple of `(exponent_bits, mantissa_bits)`"""
-    return (format.exponent_bits, format.mantissa_bits)
+def format_to_tuple(format: FPFormat) -> Tuple[int, int, str, int]:
+    """Convert the format into a tuple of
+    `(exponent_bits, mantissa_bits, rounding, srbits)`"""
+    return (
+        format.exponent_bits,
+        format.mantissa_bits,
+        format.rounding,
+        format.srbits if format.rounding == "stochastic" else 0,
+    )
 
 
-def tuple_to_format(t: Tuple[int, int]) -> FPFormat:
-    """Given a tuple of `(exponent_bits, mantissa_bits)` returns the corresponding
-    :class:`FPFormat`"""
+def tuple_to_format(t: Tuple[Any, ...]) -> FPFormat:
+    """Given a tuple of `(exponent_bits, mantissa_bits[, rounding, srbits])` returns
+    the corresponding :class:`FPFormat`"""
     return FPFormat(*t)
 
 
